@@ -94,6 +94,18 @@ func (w *World) registerRaceIntrinsics() {
 		e.curThread = saved
 		return nil
 	}
+	// SwapPointer: an atomic load and an atomic store of the same cell
+	I["sync/atomic.SwapPointer"] = func(e *Exec, fn *ssa.Function, a []Value) Value {
+		p := a[0].(*Pointer)
+		e.recordAccess("ALoad", ptrLoc(p))
+		e.recordAccess("AStore", ptrLoc(p))
+		saved := e.curThread
+		e.curThread = 0
+		old := e.load(p)
+		e.store(p, a[1])
+		e.curThread = saved
+		return old
+	}
 	// verifThread(k, f): run f as thread k (sequentially; events are recorded)
 	I["@verifThread"] = func(e *Exec, fn *ssa.Function, a []Value) Value {
 		k, ok := a[0].(*Term).intVal()
